@@ -335,7 +335,7 @@ fn main() {
     run.assume("sharding randomness / nonce / verify key / ctx come from a fixed tape alphabet (32-byte seeds are not enumerable)");
 
     let q = run.quick();
-    let tapes = tape_alphabet(run.seed, if q { 2 } else { 16 });
+    let tapes = tape_alphabet(run.seed, if q { 4 } else { 16 });
     let p64 = Field64::p();
     let std = Config { aggs: vec![2, 3], proofs: vec![1, 2] };
     let wide = Config { aggs: if q { vec![1, 2, 5, 254] } else { vec![1, 2, 3, 4, 5, 16, 254] }, proofs: if q { vec![1, 3, 255] } else { vec![1, 2, 3, 255] } };
